@@ -36,14 +36,12 @@ def confirm(prop, src, name):
     meta = {"property": prop, "name": name, "source_dir": str(src), "repo_head": sh("git -C /repo rev-parse HEAD").stdout.strip(),
             "confirmed_at": time.strftime("%Y-%m-%d %H:%M:%S")}
     try:
-        demos = [p for p in src.iterdir() if p.name.startswith("demo")] + [p for p in src.iterdir() if p.name == "build.sh"]
-        for p in demos:
-            shutil.copy(p, wt / p.name)
         demo_cmd = None
         if (src / "demo.py").exists():
+            shutil.copy(src / "demo.py", wt / "demo.py")
             demo_cmd = f"{WTPY} {wt} demo.py"
         elif (src / "build.sh").exists():
-            demo_cmd = f"cd {wt} && bash build.sh"
+            demo_cmd = f"bash {src / 'build.sh'} {wt}"          # C++ demo: compiles the worktree's header standalone
         assert demo_cmd, "no demo"
         r0 = sh(demo_cmd, timeout=1800)
         meta["demo_exit_without_patch"] = r0.returncode
@@ -65,6 +63,8 @@ def confirm(prop, src, name):
     for p in src.iterdir():
         if p.is_file() and p.stat().st_size < 200_000:
             shutil.copy(p, out / p.name)
+        elif p.is_dir():
+            shutil.copytree(p, out / p.name, dirs_exist_ok=True)
     readme = (src / "README.md").read_text() if (src / "README.md").exists() else ""
     meta["needs_to_manifest"] = readme[:1500]
     (out / "meta.json").write_text(json.dumps(meta, indent=1))
